@@ -100,7 +100,7 @@ class ServerHarness(h_lib.LibHarness):
         h_lib.LibHarness.__init__(self, prog, tier)
         self.name = 'server_requests'
         self.required_covers = ServerHarness.required_covers
-        self.bounds = {'notes': ['a', 'b', 'd/c'], 'documents': 'menus of <= 3 blocks with block / inline links, headings, lists, quotes',
+        self.bounds = {'notes': ['a', 'b', 'd/c', 'd/e'], 'documents': 'menus of <= 3 blocks with block / inline links, headings, lists, quotes',
                        'requests': 'references, definition, prepareRename, rename, formatting, documentSymbol, inlayHint, codeAction(+resolve), after an optional didChange',
                        'uris': 'every note, a note that is not loaded, a uri outside the library', 'positions': 'symbolic (line, character) for definition / prepareRename'}
         self.md_pat = re.compile(r"NodeIter(<'_>)?>::(to_markdown|to_default_markdown)$")
@@ -154,10 +154,10 @@ class ServerHarness(h_lib.LibHarness):
         prog.overrides = {self.stub_pat: self.stub_document, self.md_pat: self.stub_md,
                           re.compile(r'identifier_to_action_kind$'): lambda ex, c, a, dt: Struct('lsp_types::CodeActionKind', [Cell(natives.as_str(a[0]))], None)}
         # ---- library
-        menu_a = [[('H',), ('R', 'b'), ('P',)], [('H',), ('I', 'b'), ('R', 'd/c')], [('P',), ('L', 'b')], [('H',), ('R', 'zz'), ('I', 'a')], [('R', 'b')], [('H',), ('Q', 'b')]]
-        menu_b = [[('H',), ('P',)], [('P',), ('I', 'a')], [('H',), ('R', 'a'), ('R', 'd/c')]]
-        menu_c = [[('H',), ('R', 'c2')], [('H',), ('I', 'b')]]       # in d/: `c2` resolves to d/c2 (missing), inline `b` is the known root-resolution case
-        specs = {'a': menu_a[ctx.choose(len(menu_a))], 'b': menu_b[ctx.choose(len(menu_b))], 'd/c': menu_c[ctx.choose(len(menu_c))]}
+        menu_a = [[('H',), ('R', 'b'), ('P',)], [('H',), ('I', 'b.md'), ('R', 'd/c')], [('P',), ('L', 'b')], [('H',), ('R', 'zz'), ('I', 'a')], [('R', 'b')], [('H',), ('Q', 'b')]]
+        menu_b = [[('H',), ('P',)], [('P',), ('I', 'a')], [('H',), ('R', 'a.md'), ('R', 'd/c')]]
+        menu_c = [[('H',), ('R', 'c2')], [('H',), ('I', 'b')], [('H',), ('R', 'e')]]       # in d/: `c2` -> d/c2 (missing), inline `b` is the known root-resolution case, `e` -> d/e (exists)
+        specs = {'a': menu_a[ctx.choose(len(menu_a))], 'b': menu_b[ctx.choose(len(menu_b))], 'd/c': menu_c[ctx.choose(len(menu_c))], 'd/e': [('H',), ('P',)]}
         texts, self.links, self.neutral = {}, {}, {}
         for k, sp in specs.items():
             n, v, links = self.doc(h, sp, k.replace('/', '').upper())
@@ -347,6 +347,7 @@ class ServerHarness(h_lib.LibHarness):
             url = None
             pos = natives._lsp_position_new(ex, None, [0, 0], None)
         new_name = ('n', 'b', 'a')[ctx.choose(3)]
+        ctx.rename_target_exists = bool(url) and not is_external(url) and resolve(url, ukey) in set(specs) if ukey else False
         p = lsp(prog, 'RenameParams', text_document_position=lsp(prog, 'TextDocumentPositionParams', text_document=tdi, position=pos), new_name=new_name)
         r = ex.call('Server::handle_rename', [sref, p])
         info = dict(info, link=url, new_name=new_name)
@@ -460,6 +461,24 @@ class ServerHarness(h_lib.LibHarness):
     def code_action(self, ctx, ex, sref, tdi, ukey, info):
         prog = self.prog
         line = ctx.choose(4) * 2
+        if ctx.choose(2) == 1:
+            # a client that sends non-empty ranges (Helix): the actions are those of the block at the START of the range
+            def acts_for(client, l0, l1, c1):
+                server = sref.cell.v
+                server.cell('lsp_client').v = prog.mk_enum('router::LspClient', client)
+                rng = natives._lsp_range_new(ex, None, [natives._lsp_position_new(ex, None, [l0, 0], None), natives._lsp_position_new(ex, None, [l1, c1], None)], None)
+                p = lsp(prog, 'CodeActionParams', text_document=tdi, range=rng, context=lsp(prog, 'CodeActionContext', diagnostics=VecV()))
+                r = ex.call('Server::handle_code_action', [sref, Ref(Cell(p))])
+                out = []
+                for x in r.items:
+                    ca = x.v.f[0].v
+                    out.append((ca.get('title'), pyval(ca.get('data'))))
+                return out
+            base = acts_for('Helix', line, line, 0)
+            wide = acts_for('Helix', line, line + 2, 0)
+            ctx.law('C13.code-actions-operate-on-the-block-at-the-range-start', str(base) == str(wide), dict(info, line=line, at_start=str(base), wide_range=str(wide)))
+            ctx.cover('code-action-resolved')
+            return
         rng = natives._lsp_range_new(ex, None, [natives._lsp_position_new(ex, None, [line, 0], None), natives._lsp_position_new(ex, None, [line, 0], None)], None)
         p = lsp(prog, 'CodeActionParams', text_document=tdi, range=rng, context=lsp(prog, 'CodeActionContext', diagnostics=VecV()))
         r = ex.call('Server::handle_code_action', [sref, Ref(Cell(p))])
@@ -474,6 +493,9 @@ class ServerHarness(h_lib.LibHarness):
         req, ukey, uri = getattr(ctx, 'req', (None, None, None))
         ctx.violations.append({'law': 'C12.every-request-is-answered', 'model': ctx.model(),
                                'info': {'msg': res['detail'], 'where': res.get('where'), 'input': getattr(ctx, 'input_desc', None)}})
+        if req == 'rename':
+            ctx.violations.append({'law': 'C08.rename-is-answered', 'model': ctx.model(),
+                                   'info': {'msg': res['detail'], 'where': res.get('where'), 'input': getattr(ctx, 'input_desc', None)}})
 
     def finish_violation(self, ctx, v):
         req, ukey, uri = getattr(ctx, 'req', (None, None, None))
@@ -482,7 +504,9 @@ class ServerHarness(h_lib.LibHarness):
         d = getattr(ctx, 'input_desc', None) or {}
         if v['law'] == 'C12.every-request-is-answered' and ukey is None and 'to have key' in msg:
             role = 'request-for-a-note-that-is-not-loaded:' + str(req)
-        elif v['law'] == 'C12.every-request-is-answered' and req == 'rename' and 'to have key' in msg:
+        elif v['law'] in ('C12.every-request-is-answered', 'C08.rename-is-answered') and req == 'rename' and 'to have key' in msg and ukey and '/' in ukey and getattr(ctx, 'rename_target_exists', False):
+            role = 'rename-site-in-sub-directory'
+        elif v['law'] in ('C12.every-request-is-answered', 'C08.rename-is-answered') and req == 'rename' and 'to have key' in msg:
             role = 'rename-on-a-link-to-a-missing-note'
         elif v['law'] == 'C12.every-request-is-answered' and req == 'code_action' and 'to have key' in msg and ukey is not None:
             role = 'inline-dangling-reference'
